@@ -45,6 +45,12 @@ contract(f"{GF}:GFunction.borehole_radius_correction", dict(g_function=ListOf(Re
          loops={0: LoopSpec(invariants=[("corrected-so-far", lambda E: _corr(E, E.g_function_corrected, E._k0))], shapes={"g_function_corrected": ListOf(Real)})},
          ensures=[("corrected-by-log-of-radius-ratio", lambda E: And(E.result.len == E.g_function.len, _corr(E, E.result, E.g_function.len)))],
          returns=ListOf(Real))
+# the same with the curve handed over as a float array (a single-height family returns its stored curve object itself: the frame obligation says the correction leaves it as it is)
+contract(f"{GF}:GFunction.borehole_radius_correction", dict(g_function=ListOf(Real, np=True), rb=Real, rb_star=Real), name=f"{GF}:GFunction.borehole_radius_correction#array-input",
+         requires=[("positive-radii", lambda E: And(E.rb > 0, E.rb_star > 0))],
+         loops={0: LoopSpec(invariants=[("corrected-so-far", lambda E: _corr(E, E.g_function_corrected, E._k0))], shapes={"g_function_corrected": ListOf(Real)})},
+         ensures=[("corrected-by-log-of-radius-ratio", lambda E: And(E.result.len == E.g_function.len, _corr(E, E.result, E.g_function.len)))],
+         returns=ListOf(Real)).applies = lambda env: False
 
 
 def _corr(E, out, upto):
